@@ -136,6 +136,7 @@ pub fn run(p: &Params, rep: &mut Report) {
                 break;
             }
         }
+        crate::adaptors::adaptors(&h, rep, &mut rng);
         if k % 97 == 0 {
             rep.sample(json!({"case": k, "milestone_interval": milestone, "history": h.replay_json(), "final_shape": h.model.shape()}));
         }
